@@ -68,8 +68,22 @@ def gen_gaussian_case(r, cid):
     mode = r.choice(["eager", "eager", "reparam"])
     nsi = r.choice([0, 1, 1, 2]) if mode == "eager" else 0
     sample_inputs = [["p%d" % i, r.choice([1, 2, 3])] for i in range(nsi)]
-    sqrt = r.choice(["chol", "rotated", "negdiag", "wide"]) if mode == "eager" else r.choice(["chol", "rotated", "negdiag"])
+    sqrt = r.choice(["chol", "rotated", "negdiag", "wide", "wide_offset", "deficient"]) if mode == "eager" else r.choice(["chol", "rotated", "negdiag"])
+    da = sum(int(math.prod(s)) for n, s in reals if n in sampled)
+    extra = {}
+    if sqrt == "deficient":
+        if da >= dim:
+            sqrt = "wide_offset"  # sampling every real input needs a proper Gaussian
+        else:
+            extra["rank"] = r.randint(da, dim - 1)
+    if sqrt == "wide_offset":
+        extra["rank"] = dim + r.choice([1, 1, 2, dim])
+    if "rank" in extra:
+        # the factor is used as given (dim x rank), with a white vector that need not lie in its row space
+        extra["factor"] = [[round(r.gauss(0, 1), 3) for _ in range(dim * extra["rank"])] for _ in range(nb_total)]
+        extra["white"] = [[round(r.gauss(0, 1), 3) for _ in range(extra["rank"])] for _ in range(nb_total)]
     return {
+        **extra,
         "kind": "gaussian",
         "sqrt": sqrt,
         "cid": cid,
@@ -409,10 +423,19 @@ def _mk_gaussian(case):
     loc = np.array(case["locs"], dtype=np.float64).reshape(bshape + (dim,))
     # white_vec with  prec_sqrt @ white_vec = P loc :  least-norm solution  white = prec_sqrt^T loc
     white = (np.swapaxes(L, -1, -2) @ loc[..., None])[..., 0]
+    if sqrt_kind in ("wide_offset", "deficient"):
+        rank = case["rank"]
+        L = np.array(case["factor"], dtype=np.float64).reshape(bshape + (dim, rank))
+        if sqrt_kind == "wide_offset":
+            L = L + np.concatenate([1.5 * np.eye(dim), np.zeros((dim, rank - dim))], -1)  # keep it well conditioned
+        white = np.array(case["white"], dtype=np.float64).reshape(bshape + (rank,))
+        P = L @ np.swapaxes(L, -1, -2)
+        loc = None
+    eta = (L @ white[..., None])[..., 0]  # information vector:  log density = -x'Px/2 + x'eta + const
     inputs = OrderedDict((n, funsor.Bint[s]) for n, s in case["batch"])
     for n, shape in case["reals"]:
         inputs[n] = funsor.Reals[tuple(shape)]
-    return Gaussian(white_vec=white, prec_sqrt=L, inputs=inputs), P, loc
+    return Gaussian(white_vec=white, prec_sqrt=L, inputs=inputs), P, loc, eta
 
 
 def _check_gaussian(case, stats, stream_seed):
@@ -427,7 +450,7 @@ def _check_gaussian(case, stats, stream_seed):
 
     from sim import oracle, seams
 
-    g, P, loc = _mk_gaussian(case)
+    g, P, loc, eta = _mk_gaussian(case)
     sampled = frozenset(case["sampled"])
     reals = case["reals"]
     a_idx, b_idx = [], []
@@ -453,10 +476,12 @@ def _check_gaussian(case, stats, stream_seed):
             b0[n] = funsor.Tensor(val.reshape(tuple(shape)))
             bvec[..., pos : pos + k] = val
             pos += k
-    mean_a = loc[..., a_idx]
+    # conditional of the sampled block given b = bvec, in information form:
+    #   mean_a|b = Paa^-1 (eta_a - Pab b),  cov_a|b = Paa^-1
+    rhs_a = eta[..., a_idx]
     if b_idx:
-        # mean_a|b = mu_a - Paa^-1 Pab (b - mu_b)
-        mean_a = mean_a - np.linalg.solve(Paa, (Pab @ (bvec - loc[..., b_idx])[..., None]))[..., 0]
+        rhs_a = rhs_a - (Pab @ bvec[..., None])[..., 0]
+    mean_a = np.linalg.solve(Paa, rhs_a[..., None])[..., 0]
     cov_a = np.linalg.inv(Paa)
     sample_inputs = OrderedDict((n, funsor.Bint[s]) for n, s in case["sample_inputs"])
 
@@ -577,6 +602,35 @@ def _check_gaussian(case, stats, stream_seed):
     if msg is not None:
         raise Violation("sample-mass-via-reduce", "Gaussian sample.reduce(logaddexp, sampled) differs from the marginal: " + msg)
     stats["identities"] += 1
+    # the same mass against the closed form of a quadratic fitted through point evaluations of g
+    # (funsor's own marginal shares a helper with the sampler)
+    from sim import refint
+
+    bnames = [n for n, _ in case["batch"]]
+    lhs_r = funsor.reinterpret(lhs)
+    for bidx in list(itertools.product(*[range(sz) for _, sz in case["batch"]]))[:6]:
+        bpoint = {n: funsor.Number(i, dict(case["batch"])[n]) for n, i in zip(bnames, bidx)}
+        try:
+            want = refint.marginal_at(g, sorted(sampled), dict(b0, **bpoint))
+        except oracle.Declined:
+            want = None
+        if want is None:
+            stats["reference_silent"] = stats.get("reference_silent", 0) + 1
+            continue
+        sub = {k: v for k, v in bpoint.items() if k in lhs_r.inputs}
+        got = lhs_r(**sub) if sub else lhs_r
+        try:
+            axes, vals = oracle.denote(funsor.reinterpret(got))
+        except oracle.Declined:
+            continue
+        vals = np.asarray(vals, dtype=np.float64)
+        stats["reference_marginals"] = stats.get("reference_marginals", 0) + 1
+        if not np.all(np.isfinite(vals)) or np.abs(vals - want).max() > 1e-6 * (1 + abs(want) + np.abs(vals).max()):
+            raise Violation(
+                "sample-mass",
+                "Gaussian sample over %s (factor kind %s, batch element %s): mass %s, closed form of the fitted quadratic %.12g"
+                % (sorted(sampled), case.get("sqrt"), dict(zip(bnames, bidx)), vals.tolist(), want),
+            )
     stats["randn_calls"] += len(stream0.calls)
     return oracle.digest(Sr)
 
@@ -593,7 +647,7 @@ def _check_mixture(case, stats, stream_seed):
 
     from sim import oracle, seams
 
-    g, P, loc = _mk_gaussian(case)
+    g, P, loc, _eta = _mk_gaussian(case)
     sizes = dict(case["batch"])
     wshape = tuple(sizes[n] for n in case["wnames"])
     d = funsor.Tensor(np.array(case["weights"], dtype=np.float64).reshape(wshape), OrderedDict((n, funsor.Bint[sizes[n]]) for n in case["wnames"]))
@@ -905,6 +959,8 @@ def run_cases(payload):
                 tot[k] += st[k]
             tot["montecarlo_integrals"] = tot.get("montecarlo_integrals", 0) + st.get("montecarlo_integrals", 0)
             tot["mixtures"] = tot.get("mixtures", 0) + st.get("mixtures", 0)
+            tot["reference_marginals"] = tot.get("reference_marginals", 0) + st.get("reference_marginals", 0)
+            tot["reference_silent"] = tot.get("reference_silent", 0) + st.get("reference_silent", 0)
             for k, v in st["edge_draws"].items():
                 edge[k] = edge.get(k, 0) + v
             for p in st["prefix"]:
@@ -1043,6 +1099,8 @@ def summarize(jobs, results, tier):
         "identities_checked": tot.get("identities", 0),
         "montecarlo_integrate_consistency_checks": tot.get("montecarlo_integrals", 0),
         "gaussian_mixture_samples_checked": tot.get("mixtures", 0),
+        "gaussian_sample_masses_compared_with_closed_form": tot.get("reference_marginals", 0),
+        "gaussian_sample_masses_where_closed_form_is_silent": tot.get("reference_silent", 0),
         "sample_points_checked_in_support": tot.get("points_checked", 0),
         "rand_calls_served": tot.get("rand_calls", 0),
         "randn_calls_served": tot.get("randn_calls", 0),
